@@ -456,3 +456,40 @@ M.contract(P_DIRM + ':DirFileMakerAdv.primitive',
                         isinstance(result, dir_maker.DirFileMaker) and result._modification is self._modification
                         and result._contents is _opt_call(self._contents, 'primitive', environment)},
            raises_only=())
+
+
+# ---- the regular-file maker: sdv -> ddv -> adv (the adv's `primitive`, which substitutes the empty string source
+# for absent contents, is not under contract)
+
+P_REGM = 'exactly_lib.impls.types.files_source.impl.file_makers.regular'
+
+
+class StringSourceAdvI(Interface):
+    methods = {'primitive': Method(returns=Any_, pure=True)}
+
+
+class StringSourceDdvI(Interface):
+    attrs = {'validator': Any_}
+    methods = {'value_of_any_dependency': Method(returns=Iface(StringSourceAdvI), pure=True),
+               'structure': Method(returns=Any_)}
+
+
+class StringSourceSdvI(Interface):
+    attrs = {'references': Any_}
+    methods = {'resolve': Method(returns=Iface(StringSourceDdvI), pure=True)}
+
+
+M.contract(P_REGM + ':RegularFileMakerSdv.resolve',
+           params=dict(self=Inst(regular_maker.RegularFileMakerSdv, _modification=EnumOf(_Mod),
+                                 _contents=Opt(Iface(StringSourceSdvI))), symbols=Any_),
+           ensures={'same modification, the resolved contents': lambda self, symbols, result:
+           isinstance(result, regular_maker.RegularFileMakerDdv) and result._modification is self._modification
+           and result._contents is _opt_call(self._contents, 'resolve', symbols)}, raises_only=())
+
+M.contract(P_REGM + ':RegularFileMakerDdv.value_of_any_dependency',
+           params=dict(self=Inst(regular_maker.RegularFileMakerDdv, _modification=EnumOf(_Mod),
+                                 _contents=Opt(Iface(StringSourceDdvI)), _contents_describer=Any_), tcds=Any_),
+           ensures={'same modification, the contents of the directory structure': lambda self, tcds, result:
+           isinstance(result, regular_maker.RegularFileMakerAdv) and result._modification is self._modification
+           and result._optional_contents is _opt_call(self._contents, 'value_of_any_dependency', tcds)},
+           raises_only=())
